@@ -1028,7 +1028,7 @@ func (e *Engine) havocDB(st *State, why string) {
 }
 
 func (e *Engine) assumeDBInv(st *State) {
-	if e.contracts == nil || e.contracts.dbInv == nil {
+	if e.contracts == nil || e.contracts.dbInv == nil || e.noDBInv {
 		return
 	}
 	docs := st.g.Docs
